@@ -17,10 +17,14 @@ properties already cover, so that C01 is quiet unless something new breaks):
   cast_signed_to_wider_unsigned   u16.(i8 -1) = 255 (C08)
   div128                          128-bit division / remainder is rejected by the backend (C01-1)
   int128_in_signatures            a function with an i128 / u128 parameter or result panics the backend (C01-2)
+  dependent_comptime_param_types  `(comptime T: type, comptime k: T)`: k of a later instantiation is checked against the T of
+                                  an earlier one (C16-2)
+  recursive_generics              a generic function calling itself (same comptime arguments) hangs the compiler (C16-1)
   aggregate_assign_reads_target   `s = S.{a = s.b, b = s.a}` builds the literal in place and reads fields it has
                                   already overwritten (C01-3)
 Not in the generated fragment at all: unannotated literals above i32::MAX (C09; every literal is
-typed by a cast or an annotation), defer (C03), switch (C05), enums / variant casts (C02)."""
+typed by a cast or an annotation), defer (C03), enums / variant casts (C02).  switch is simply not part
+of CapyCore yet (the switch-argument scope defect was fixed in /repo 2904875; nothing is avoided for it)."""
 
 INTS = {"i8": (True, 8), "i16": (True, 16), "i32": (True, 32), "i64": (True, 64), "i128": (True, 128),
         "isize": (True, 64), "u8": (False, 8), "u16": (False, 16), "u32": (False, 32), "u64": (False, 64),
@@ -34,7 +38,8 @@ BOOL = ("bool",)
 VOID = ("void",)
 
 DEFAULT_OPTS = {"cast_signed_to_wider_unsigned": False, "div128": False, "int128_in_signatures": False,
-                "aggregate_assign_reads_target": False}
+                "aggregate_assign_reads_target": False, "recursive_generics": False,
+                "dependent_comptime_param_types": False}
 
 
 def T(name):
@@ -933,7 +938,9 @@ class Gen:
             if own and self.r.chance(1, 3):
                 cargs.append(("cref", self.r.choice(own)))
             else:
-                cargs.append(("clit", ct2, self.lit(ct2)[2] if ct2[0] == "i" else self.r.range(0, 100)))
+                z = self.lit(ct2)[2] if ct2[0] == "i" else self.r.range(0, 100)
+                # `f(-5)` is "not a constant value" for a comptime parameter: comptime arguments are plain literals
+                cargs.append(("clit", ct2, z if z >= 0 else -(z + 1)))
         return targs, tuple(cargs)
 
     def call(self, ctx, t, depth):
@@ -1156,7 +1163,7 @@ class Gen:
             rec = False
         else:
             ret = self.sig_ty()
-            rec = r.chance(1, 4)
+            rec = r.chance(1, 4) and (generic is None or self.o["recursive_generics"])
             params = []
             if rec:
                 params.append((self.fresh(), T("u8")))
@@ -1230,18 +1237,18 @@ def generic_programs(rng, opts=None):
     main instantiating the last generic function 1-4 times (equal and different comptime arguments,
     interleaved).  B: the same program with every call of main redirected to a hand-substituted copy
     (subst_fun) appended to the table.  info: list of (generic index, copy index, targs, cargs)."""
-    g = Gen(rng, opts, int_names=[n for n in INT_NAMES if INTS[n][1] < 128], max_funs=2, max_stmts=6)
+    g = Gen(rng, opts, int_names=[n for n in INT_NAMES if INTS[n][1] < 128], max_funs=2, max_stmts=4)
     r = g.r
     g.gen_struct_types()
     funs = []
-    for k in range(r.range(0, 2)):
+    for k in range(r.range(0, 1)):
         funs.append(g.function(len(funs), False))
     ngen = r.range(1, 2)
     for k in range(ngen):
         ntp = r.range(0, 2)
         ncp = r.range(0 if ntp else 1, 3 - ntp)
-        cps = [(("tvar", r.below(ntp)) if ntp and r.chance(1, 3) else T(r.choice(["u8", "i32", "usize", "i16", "u64"])))
-               for _ in range(ncp)]
+        cps = [(("tvar", r.below(ntp)) if ntp and r.chance(1, 3) and g.o["dependent_comptime_param_types"]
+                else T(r.choice(["u8", "i32", "usize", "i16", "u64"]))) for _ in range(ncp)]
         funs.append(g.function(len(funs), False, generic=(ntp, cps)))
     gi = len(funs) - 1
     # instantiations
@@ -1387,6 +1394,12 @@ import subprocess
 FAULT_RE = re.compile(r"\n\nin (\S+) : entered unreachable code: (.*)\n\Z", re.S)
 
 
+def strip_fault_location(stdout):
+    """stdout with the function named in a trailing fault message removed (generic vs copy differ there)."""
+    m = FAULT_RE.search(stdout)
+    return stdout if not m else stdout[:m.start()] + "\n\nin <fn> : entered unreachable code: " + m.group(2) + "\n"
+
+
 def build_and_run(capy, src, name="p", build_timeout=180, run_timeout=10):
     """Compile `src` with the real capy in a scratch directory and run the executable.
     -> dict(build_rc, build_out, rc, stdout) (rc None when not built; 124 = timeout)."""
@@ -1394,6 +1407,9 @@ def build_and_run(capy, src, name="p", build_timeout=180, run_timeout=10):
     with C.scratch("verif-capy-") as d:
         open(os.path.join(d, name + ".capy"), "w").write(src)
         rc, out = C.run([capy, "build", name + ".capy", "--mod-dir", C.REPO], cwd=d, timeout=build_timeout)
+        if rc == 124:
+            return {"build_rc": 124, "build_out": "TIMEOUT: the compiler did not finish within %d s" % build_timeout,
+                    "rc": None, "stdout": ""}
         exe = os.path.join(d, "out", name)
         out = "\n".join(l for l in out.split("\n") if not l.startswith("split_aggregate"))
         if rc != 0 or not os.path.exists(exe):
@@ -1413,6 +1429,8 @@ def build_and_run(capy, src, name="p", build_timeout=180, run_timeout=10):
 def compare(prog, outcome, impl, names=None):
     """None when the executable behaves as eval_prog prescribes, else (kind, detail)."""
     if impl["rc"] is None:
+        if impl["build_out"].startswith("TIMEOUT"):
+            return ("compiler-hang", impl["build_out"])
         if "panicked" in impl["build_out"] or impl["build_out"].startswith("PANIC"):
             return ("compiler-panic", impl["build_out"][:600])
         return ("rejected", impl["build_out"][:600])
@@ -1430,7 +1448,7 @@ def compare(prog, outcome, impl, names=None):
         if not m or impl["stdout"][:m.start()] != want or m.group(2) != FAULT_TEXT.get(outcome["fault_kind"]):
             return ("wrong-output", "fault message or the output before it differs")
         fname = (names or {}).get(outcome["fault_fn"]) or ("main" if outcome["fault_fn"] == prog["main"] else "f%d" % outcome["fault_fn"])
-        if not m.group(1).endswith("#" + fname):
+        if not re.sub(r"<\d+>\Z", "", m.group(1)).endswith("#" + fname):
             return ("wrong-output", "fault reported in %s, expected function %s" % (m.group(1), fname))
         if impl["rc"] != 1:
             return ("wrong-exit-status", "exit %s after a run-time fault, expected 1" % impl["rc"])
